@@ -348,14 +348,16 @@ def run(ctx):
             (reg_prefix if k == "prefix" else reg_postfix if k == "postfix" else set()).add(r)
     m_prefix = rule_match(closure_of(builder, "map_prefix"))
     b_prefix = {v for vs, _, _ in match_arms(m_prefix) for v in vs}
+    # when the registration code was not read (restructured builder), "not registered" is not known: undecided
+    regs_read = bool(ok) or bool(reg_prefix or reg_postfix)
     for r in sorted(g_prefix | reg_prefix | b_prefix):
-        ctx.inst("C10.R2", "prefix=%s" % r, r in g_prefix and r in reg_prefix and r in b_prefix,
+        ctx.inst("C10.R2", "prefix=%s" % r, (r in g_prefix and r in reg_prefix and r in b_prefix) if (regs_read or r not in g_prefix or r not in b_prefix) else None,
                  "grammar:%s pratt:%s builder:%s" % (r in g_prefix, r in reg_prefix, r in b_prefix), "blots-core/src/precedence.rs")
     g_postfix = set(G.alt_names("postfix_op"))
     m_postfix = rule_match(closure_of(builder, "map_postfix"))
     b_postfix = {v for vs, _, _ in match_arms(m_postfix) for v in vs}
     for r in sorted(g_postfix | reg_postfix | b_postfix):
-        ctx.inst("C10.R2", "postfix=%s" % r, r in g_postfix and r in reg_postfix and r in b_postfix,
+        ctx.inst("C10.R2", "postfix=%s" % r, (r in g_postfix and r in reg_postfix and r in b_postfix) if (regs_read or r not in g_postfix or r not in b_postfix) else None,
                  "grammar:%s pratt:%s builder:%s" % (r in g_postfix, r in reg_postfix, r in b_postfix), "blots-core/src/precedence.rs")
     # primaries: term == lambda_term alternatives; every non-silent primary the grammar can yield has a builder arm
     term, lterm = G.alt_names_flat("term"), G.alt_names_flat("lambda_term")
